@@ -59,7 +59,7 @@ func main() {
 		"iso:api-ok:code", "iso:api-ok:userinfo", "iso:api-ok:refresh", "iso:api-ok:endsession", "iso:api-ok:revoke", "iso:api-ok:clientcreds", "iso:api-ok:device",
 		"iso:api-ok:browser", "iso:api-ok:verify", "iso:api-ok:introspect", "iso:api-ok:exchange", "iso:api-ok:token",
 		"iso:device-poll-success", "iso:redirect-probe-ok:discovery", "iso:redirect-probe-ok:token", "iso:redirect-probe-ok:userinfo",
-		"extra:pair-judged", "extra:findkey-pair-judged", "extra:keyset-token-judged",
+		"extra:pair-judged", "extra:findkey-pair-judged", "extra:keyset-token-judged", "extra:shared-verifier-step-judged",
 	)
 	run.Mandatory(mandatoryNames...)
 
